@@ -20,7 +20,7 @@ func init() {
 	set("C03", silentOpsMonitor("C03"), lazinessMonitor("C03"))
 	set("C04", availabilityMonitor("C04"), faultSurfacesMonitor("C04"))
 	set("C07", failedValueMonitor("C07"), faultSurfacesMonitor("C07"), retryMonitor("C07"))
-	set("C08", resolutionMonitor("C08"), availabilityMonitor("C08"))
+	set("C08", resolutionMonitor("C08"), availabilityMonitor("C08"), provideAcceptMonitor("C08"))
 	set("C10", resolutionMonitor("C10"), singletonMonitor("C10"))
 	set("C11", lazinessMonitor("C11"), softLowerBoundMonitor("C11"))
 	set("C12", resolutionMonitor("C12"), decorateVerdictMonitor("C12"), singletonMonitor("C12"))
